@@ -5,7 +5,12 @@ Shares specs/ClientLoop and harness/clientloop.py with C04 (see c04.py); this ch
 Leg M   : TLC on ClientLoop.c05.{quick,thorough}.cfg — warm-up iterations 0..2 x iterations 1..3, warm-up period 0..3 x
           time period 1..4 ticks, unthrottled / deterministic / Poisson, 1-2 clients, ramp-up for the second client of two,
           a one-client task inside a two-client parallel element; every service-time sequence over {0,1,3}.
-Leg S2C / C2S : as C04, other seeds.
+Leg S2C / C2S : as C04, other seeds; element runs (real Allocator -> ClientAllocations -> AsyncIoAdapter, see c04.py) carry the
+          ramp-up clause into `parallel` elements with several sub-tasks: client index and total are derived in TLA+ from the
+          element's declaration (Placement), not from the code's TaskAllocation.  Tasks whose RUNNER exposes the optional
+          completion API (completed / percent_completed; cfg.rc) are part of the model, the simulated behaviours and the random
+          runs: such a runner that does not complete within the iterations must not change anything; one that completes early ends
+          the task (then: at most warmup+iterations requests, last progress 1).
 """
 from .. import clientloop
 
@@ -29,7 +34,8 @@ def run(ctx, out):
         "until the first successful request the task runs unthrottled (all scheduled times 0): named in the model, no spacing demanded",
         "ramp-up is only combined with time-based tasks and ramp-up <= warm-up period (enforced by the track loader); iteration counts are exact unless the task is completed externally (then: at most) or aborted by the unit check",
         "tick-exact runs use dyadic parameters so that float arithmetic is exact; millisecond runs with non-dyadic parameters are rounded to 1 ms and checked with L1 only, tolerance 3 ms; the Poisson distribution itself is not checked (increments are scripted)",
-        "loop controls with an unbounded iteration count (parameter source decides the end), runner-provided completion/progress and cancellation are outside the model",
+        "client i / total of the ramp-up clause: i = position of the client among all clients of the schedule element (clients of the preceding sub-tasks + index in its own sub-task), total = clients of the element; ramp-up is not combined with over-committed elements",
+        "runner completion API: completed becomes true at the runner's k-th call, percent_completed stays None; loop controls with an unbounded iteration count (parameter source or runner alone decides the end), runner-provided progress values and cancellation are outside the model",
     ]
     cov = clientloop.run_property(
         ctx,
